@@ -322,6 +322,8 @@ func (w *world) start(names map[int]string) (err error) {
 }
 
 func (w *world) close() {
+	t0 := time.Now()
+	defer func() { w.c.Count("t_close_us", int64(time.Since(t0)/time.Microsecond)) }()
 	if w.d != nil {
 		w.d.Close()
 		w.d = nil
@@ -359,6 +361,8 @@ type obs struct {
 }
 
 func (w *world) observe() (o obs, err error) {
+	t0 := time.Now()
+	defer func() { w.c.Count("t_observe_us", int64(time.Since(t0)/time.Microsecond)); w.c.Count("n_observe", 1) }()
 	o.Files = map[int]fileObs{}
 	for _, id := range []int{idBlock, idAllow, idLocal} {
 		data, rerr := os.ReadFile(w.listPath(id))
@@ -767,7 +771,10 @@ func (e *seqEnv) exec(hist []Op) (st lib.Step) {
 
 func (e *seqEnv) execRoot(root string, hist []Op) (st lib.Step) {
 	vtime.SetVirtual(base)
+	t0 := time.Now()
 	w, err := newWorld(e.c, root)
+	e.c.Count("t_newworld_us", int64(time.Since(t0)/time.Microsecond))
+	defer func() { e.c.Count("t_exec_us", int64(time.Since(t0)/time.Microsecond)); e.c.Count("n_exec", 1) }()
 	if err != nil {
 		e.c.EngineError("world: " + err.Error())
 		return lib.Step{}
@@ -775,7 +782,9 @@ func (e *seqEnv) execRoot(root string, hist []Op) (st lib.Step) {
 	defer w.close()
 	for i, op := range hist {
 		e.c.Count("steps_executed", 1)
+		t1 := time.Now()
 		outcome, nt, vkey, vdesc := w.step(op, hist[:i+1])
+		e.c.Count("t_step_us", int64(time.Since(t1)/time.Microsecond))
 		if strings.HasPrefix(vkey, "harness-") {
 			e.c.EngineError(vkey + ": " + vdesc + " on " + histString(hist[:i+1]))
 			return lib.Step{}
